@@ -340,24 +340,30 @@ fn get_filename_from_diff_header_line_file_path(path: &str) -> Option<&str> {
 }
 
 fn parse_diff_header_line(line: &str, git_diff_name: bool) -> (String, FileEvent) {
+    // (A path that git quotes - 'core.quotepath' - is quoted in the rename/copy lines as it is in
+    // the "---"/"+++" lines; the quotes are removed from all of them alike.)
     match line {
         line if line.starts_with("--- ") || line.starts_with("+++ ") => {
             let offset = 4;
             let file = _parse_file_path(&line[offset..], git_diff_name);
             (file, FileEvent::Change)
         }
-        line if line.starts_with("rename from ") => {
-            (line[12..].to_string(), FileEvent::Rename) // "rename from ".len()
-        }
-        line if line.starts_with("rename to ") => {
-            (line[10..].to_string(), FileEvent::Rename) // "rename to ".len()
-        }
-        line if line.starts_with("copy from ") => {
-            (line[10..].to_string(), FileEvent::Copy) // "copy from ".len()
-        }
-        line if line.starts_with("copy to ") => {
-            (line[8..].to_string(), FileEvent::Copy) // "copy to ".len()
-        }
+        line if line.starts_with("rename from ") => (
+            remove_surrounding_quotes(&line[12..]).to_string(), // "rename from ".len()
+            FileEvent::Rename,
+        ),
+        line if line.starts_with("rename to ") => (
+            remove_surrounding_quotes(&line[10..]).to_string(), // "rename to ".len()
+            FileEvent::Rename,
+        ),
+        line if line.starts_with("copy from ") => (
+            remove_surrounding_quotes(&line[10..]).to_string(), // "copy from ".len()
+            FileEvent::Copy,
+        ),
+        line if line.starts_with("copy to ") => (
+            remove_surrounding_quotes(&line[8..]).to_string(), // "copy to ".len()
+            FileEvent::Copy,
+        ),
         line if line.starts_with("new file mode ") => {
             (line[14..].to_string(), FileEvent::Added) // "new file mode ".len()
         }
